@@ -224,10 +224,19 @@ type pipeStream[T any] struct {
 	senderErr  *error
 	senderDone <-chan struct{}
 	streamDone chan<- struct{}
+	// Set once Next has reported the end (or the close error), so that it keeps being reported
+	// even if a Send that raced with Close slips an item into the buffer afterwards.
+	ended bool
 }
 
 func (s *pipeStream[T]) Next(ctx context.Context) (T, error) {
 	var zero T
+	if s.ended {
+		if err := *s.senderErr; err != nil {
+			return zero, err
+		}
+		return zero, End
+	}
 	select {
 	case <-ctx.Done():
 		return zero, ctx.Err()
@@ -241,6 +250,7 @@ func (s *pipeStream[T]) Next(ctx context.Context) (T, error) {
 			return item, nil
 		default:
 		}
+		s.ended = true
 		err := *s.senderErr
 		if err != nil {
 			return zero, err
